@@ -27,3 +27,6 @@ func ModelPoint(r *rand.Rand, fieldKeys, tagKeys []string) *ref.Point {
 	}
 	return p
 }
+
+// Rand returns a PRNG for the given seed.
+func Rand(seed int64) *rand.Rand { return rand.New(rand.NewSource(seed)) }
